@@ -337,6 +337,7 @@ class SimSocket(object):
     self.rxbuf = bytearray()
     self.rx_eof = False
     self.rx_reset = False
+    self.accept_script = []       # errnos the next accept() calls fail with
     self.connected = False
     self.closed = False
     self.shut_wr = False
@@ -395,8 +396,14 @@ class SimSocket(object):
   def accept(self):
     if not self.accept_q:
       raise BlockingIOError(errno.EAGAIN, "Resource temporarily unavailable")
-    s = self.accept_q.popleft()
     sim = self.sim
+    if self.accept_script:
+      # a failing accept(): the connection stays queued (EMFILE: the
+      # process is out of descriptors for the moment)
+      e = self.accept_script.pop(0)
+      sim.stats["accept_failed"] += 1
+      raise OSError(e, os.strerror(e))
+    s = self.accept_q.popleft()
     if sim.reuse_fds:
       # the accepting process gets the lowest descriptor it has free --
       # possibly the number of a connection it closed a moment ago
@@ -513,7 +520,11 @@ class SimSocket(object):
   def shutdown(self, how):
     if self.closed:
       raise OSError(errno.EBADF, "Bad file descriptor")
-    if not self.connected:
+    if not self.connected or self.rx_reset:
+      # (a TCP socket whose peer has reset it is in state CLOSE: Linux
+      # answers shutdown() with a plain OSError(ENOTCONN), which is not a
+      # ConnectionError)
+      self.sim.stats["shutdown_enotconn"] += 1
       raise OSError(errno.ENOTCONN, "Transport endpoint is not connected")
     if how in (_real_socket.SHUT_WR, _real_socket.SHUT_RDWR):
       if not self.shut_wr:
